@@ -125,6 +125,26 @@ def topo_configs(repo, rng, tier):
     for s in syn:
         cfgs.append(("syn:" + s, ["src synthetic " + s], "synthetic", False, None))
         cfgs.append(("syn+this:" + s, ["src synthetic " + s, "flags 2"], "synthetic", True, None))
+    # CPU-less NUMA nodes: hwloc_topology_restrict() without REMOVE_CPULESS keeps the nodes that lost their CPUs
+    # (under a Package, under a Group that only holds memory, behind a memory-side cache, beside a root-attached node),
+    # plus hand-written XML with a root-attached node and an offline PU; each also as "this system"
+    cpuless = [("cpuless-pack", ["src synthetic pack:2 [numa] pu:2"], "0:3"),
+               ("cpuless-group", ["src synthetic group:2 [numa] pu:2"], "0:3"),
+               ("cpuless-memcache", ["src synthetic pack:2 [numa(memorysidecachesize=1048576)] pu:2"], "0:3"),
+               ("cpuless-rootnode", ["src synthetic [numa] pack:2 [numa] pu:2"], "0:c"),
+               ("cpuless-3of4", ["src synthetic numa:4 pu:2"], "0:0c")]
+    x8 = os.path.join(xmld, "16amd64-8n2c-cpusets.xml")
+    if os.path.exists(x8):
+        cpuless.append(("cpuless-disallowed-xml", ["src xml " + x8], "0:0060"))
+    for nm, lines, rs in cpuless:
+        kind = "xml" if lines[0].startswith("src xml") else "synthetic"
+        cfgs.append((nm, lines + ["post restrict %s 0" % rs], kind, False, None))
+        cfgs.append((nm + "+this", lines + ["flags 2", "post restrict %s 0" % rs], kind, True, None))
+    verif = os.path.dirname(os.path.dirname(os.path.abspath(__file__)))
+    for x in ("cpuless-root.xml", "cpuless-root-offline.xml"):
+        p = os.path.join(verif, "corpus", "c10", x)
+        cfgs.append(("xml:" + x, ["src xml " + p], "xml", False, None))
+        cfgs.append(("xml+this:" + x, ["src xml " + p, "flags 2"], "xml", True, None))
     cfgs.append(("syn+env1", ["env HWLOC_THISSYSTEM 1", "src synthetic numa:2 pu:3"], "synthetic", False, 1))
     cfgs.append(("syn+this+env0", ["env HWLOC_THISSYSTEM 0", "src synthetic numa:2 pu:3", "flags 2"], "synthetic", True, 0))
     for x in xmls:
@@ -291,6 +311,31 @@ def boundary_calls(T):
         res += ["scb %s 0" % s.text(), "scb %s 2" % s.text(), "smb %s 2 0" % s.text(), "amb 4096 %s 2 4" % s.text(), "amb 4096 %s 2 0" % s.text()]
     for s in (EMPTY, FULL, T.cns, T.ns):
         res += ["smb %s 2 32" % s.text(), "samb 0 %s 2 32" % s.text(), "samb 4096 %s 2 32" % s.text(), "amb 0 %s 2 32" % s.text()]
+    return res
+
+
+def membind_cover_calls(T):
+    """enumerated: every set-like membind entry point, by cpuset and BY NODESET, with the whole-topology set, the
+    complete set, a covering superset, sets just short of covering (one member missing), one node's CPUs"""
+    res = []
+    def variants(topo_set, complete):
+        tb, cb = topo_set.fin, complete.fin
+        out = [topo_set, complete]
+        extra = cb & ~tb
+        if extra:
+            out.append(BS(False, tb | (extra & -extra)))
+        i = 0
+        while tb >> i:
+            if (tb >> i) & 1:
+                out.append(BS(False, tb & ~(1 << i)))          # just short of covering
+            i += 1
+        return [x for x in out if not x.inf]
+    cpus = variants(T.cs, T.ccs) + [s for _, s in T.nodes if not s.is_empty()]
+    nodes = variants(T.ns, T.cns)
+    for f, sets in ((0, cpus), (2, cpus[:3]), (4, cpus[:2]), (BYNODESET, nodes), (BYNODESET | 2, nodes[:3])):
+        for s in sets:
+            t = s.text()
+            res += ["smb %s 2 %d" % (t, f), "spmb 0 %s 2 %d" % (t, f), "samb 4096 %s 2 %d" % (t, f), "amb 4096 %s 2 %d" % (t, f | STRICT)]
     return res
 
 
